@@ -838,7 +838,19 @@ func (r *Run) callSSA(caller *frame, callpos token.Pos, fn *ssa.Function, args [
 	if !interp && fn.Pkg != nil && fn.Name() == "init" && fn.Signature.Recv() == nil {
 		return nil // initialisers of library packages are not run (their globals are not modelled)
 	}
-	if !interp && (r.E.Whitelist[name] || (fn.Pkg != nil && r.E.WhitelistPkgs[fn.Pkg.Pkg.Path()])) {
+	nativeRecv := false
+	if len(args) > 0 && fn.Signature.Recv() != nil {
+		switch a0 := args[0].(type) {
+		case nativeV, *absObj:
+			nativeRecv = true
+		case iface:
+			switch a0.v.(type) {
+			case nativeV, *absObj:
+				nativeRecv = true
+			}
+		}
+	}
+	if !interp && !nativeRecv && (r.E.Whitelist[name] || (fn.Pkg != nil && r.E.WhitelistPkgs[fn.Pkg.Pkg.Path()])) {
 		if fn.Blocks == nil && fn.Pkg != nil {
 			fn.Pkg.Build()
 		}
